@@ -133,6 +133,56 @@ class State:
             del self.copy[k]
 
 
+import re as _re
+
+_AV_RE = _re.compile(r"^tinyvec::arrayvec::ArrayVec<\[.*; (\d+)\]>$")
+_ARR_RE = _re.compile(r"^\[.*; (\d+)\]$")
+
+
+def strip_refs(ty_s):
+    while True:
+        if ty_s.startswith("&mut "):
+            ty_s = ty_s[5:]
+        elif ty_s.startswith("&"):
+            ty_s = ty_s[1:].lstrip()
+            if ty_s.startswith("'"):
+                ty_s = ty_s.split(" ", 1)[1] if " " in ty_s else ty_s
+            if ty_s.startswith("mut "):
+                ty_s = ty_s[4:]
+        else:
+            return ty_s
+
+
+def type_len(ty_s):
+    """Length interval implied by a type alone: arrays exact, ArrayVec 0..capacity, slices unknown."""
+    t = strip_refs(ty_s)
+    m = _ARR_RE.match(t)
+    if m:
+        n = int(m.group(1))
+        return (n, n)
+    m = _AV_RE.match(t)
+    if m:
+        return (0, int(m.group(1)))
+    if t.startswith("util::ArrayVecZeroize<"):
+        mm = _re.search(r", (\d+)>$", t)
+        if mm:
+            return (0, int(mm.group(1)))
+    if t.startswith("[") and t.endswith("]") and ";" not in t.rsplit("]", 1)[0].rsplit("[", 1)[-1]:
+        return (0, SLICE_LEN_MAX)
+    return None
+
+
+def type_cap(ty_s):
+    t = strip_refs(ty_s)
+    m = _AV_RE.match(t)
+    if m:
+        return int(m.group(1))
+    m = _ARR_RE.match(t)
+    if m:
+        return int(m.group(1))
+    return None
+
+
 def place_key(p, locals_=None):
     """Trackable key of a place: local + path of fields / downcasts; None if it goes through a
     mutable pointer or an index.  A leading deref of a *shared* reference local is allowed: the
@@ -142,8 +192,10 @@ def place_key(p, locals_=None):
         k = e["k"]
         if k == "deref" and n == 0 and locals_ is not None:
             lt = locals_[p["local"]]["ty"]
-            if lt.get("k") == "ref" and not lt.get("mut"):
-                path.append("*")
+            if lt.get("k") == "ref":
+                # references are transparent: facts about the referent are kept on the reference local.
+                # For `&mut` this is sound because the reference is exclusive; facts are dropped when a
+                # reborrow of it is handed to a call (see Analyzer.call) or it is itself mutably borrowed.
                 continue
             return None
         if k == "field":
@@ -176,6 +228,7 @@ class Analyzer:
         self.agg_obs = {}
         self._recording = False
         self._cur_locals = None
+        self._len_safe = set()
         self._mut_borrowed = set()
         self.assoc = self._assoc_consts()
         self.field_sets = {}
@@ -394,12 +447,12 @@ class Analyzer:
             key, ctx, args, sub = key0, ctx0, [None] * f.arg_count, None
         self.ctx_count[path] = n + 1
         self.in_progress.add(key)
-        saved = (getattr(self, "_cur_locals", None), self._mut_borrowed)
+        saved = (getattr(self, "_cur_locals", None), self._mut_borrowed, getattr(self, "_len_safe", set()))
         try:
             ret = self.analyze(f, args, ctx, sub)
         finally:
             self.in_progress.discard(key)
-            self._cur_locals, self._mut_borrowed = saved
+            self._cur_locals, self._mut_borrowed, self._len_safe = saved
         self.memo[key] = ret
         return ret
 
@@ -425,6 +478,10 @@ class Analyzer:
                 if f.locals[l]["ty"]["s"].startswith(ITER_TYPES):
                     continue
                 self._mut_borrowed.add(l)
+        self._len_safe = set()
+        for l in self._mut_borrowed:
+            if all(x is not None for x in flow.ref_sinks(f, l)):
+                self._len_safe.add(l)
         thresholds = self._thresholds(f)
         instate = [None] * nb
         instate[0] = st0
@@ -469,6 +526,12 @@ class Analyzer:
             self.transfer_block(f, b, st, ctx, record=True)
             if f.blocks[b]["term"]["k"] == "return":
                 cur = {k[1]: v for k, v in st.v.items() if k[0] == 0}
+                for i in range(1, f.arg_count + 1):
+                    lt = f.locals[i]["ty"]
+                    if lt.get("k") == "ref" and lt.get("mut"):
+                        for kk, vv in st.v.items():
+                            if kk[0] == i and kk[1] and kk[1][-1] == "#len":
+                                cur[("#param", i) + kk[1]] = vv
                 if not have_ret:
                     ret = cur
                     have_ret = True
@@ -569,6 +632,47 @@ class Analyzer:
             return None
         return self.place_iv(f, st, p)
 
+    # --- lengths of arrays / fixed-capacity vectors / slices, Ok-ness of Result/Option values
+    def len_of_place(self, f, st, p):
+        key = place_key(p, f.locals)
+        if key is None and p["proj"] and p["proj"][0]["k"] == "deref" and all(e["k"] in ("deref", "field", "downcast") for e in p["proj"]):
+            # through a `&mut`: lengths are maintained explicitly by the call effects (see set_len / len_safe)
+            p2 = dict(p)
+            p2["proj"] = p["proj"][1:]
+            key = place_key(p2, None) if not any(e["k"] == "deref" for e in p2["proj"]) else None
+        if key is not None:
+            v = st.v.get((key[0], key[1] + ("#len",)))
+            if v is not None:
+                d = type_len(p["ty"])
+                return (meet(v, d) or v) if d is not None else v
+        # a field read through a pointer: nothing tracked, fall back to the type
+        return type_len(p["ty"])
+
+    def len_of_operand(self, f, st, o):
+        if o["k"] == "const":
+            return type_len(o["ty"]["s"])
+        p = core.op_place(o)
+        if p is None:
+            return None
+        return self.len_of_place(f, st, p)
+
+    def sub_of_operand(self, st, o, sub):
+        p = core.op_place(o)
+        if p is None:
+            return None
+        key = place_key(p, self._cur_locals)
+        if key is None:
+            return None
+        return st.v.get((key[0], key[1] + sub))
+
+    def set_len(self, st, key, iv):
+        """#len of the value held at `key` (allowed for locals whose &mut borrows only reach calls)."""
+        k = (key[0], key[1] + ("#len",))
+        if iv is None or (key[0] in self._mut_borrowed and key[0] not in self._len_safe):
+            st.v.pop(k, None)
+        else:
+            st.v[k] = iv
+
     def op_key(self, st, o):
         p = core.op_place(o)
         if p is None:
@@ -583,12 +687,16 @@ class Analyzer:
         if iv is not None and key[0] not in self._mut_borrowed:
             st.v[key] = iv
 
-    def copy_sub(self, st, dst, src):
+    def copy_sub(self, st, dst, src, allow_len=False):
         """dst := src for aggregates: copy every tracked sub-key."""
         items = [(k, v) for k, v in st.v.items() if k[0] == src[0] and k[1][: len(src[1])] == src[1]]
         cmps = [(k, v) for k, v in st.cmp.items() if k[0] == src[0] and k[1][: len(src[1])] == src[1]]
         st.kill(dst)
         if dst[0] in self._mut_borrowed:
+            if dst[0] in self._len_safe:
+                for k, v in items:
+                    if k[1] and k[1][-1] == "#len":
+                        st.v[(dst[0], dst[1] + k[1][len(src[1]):])] = v
             return
         for k, v in items:
             st.v[(dst[0], dst[1] + k[1][len(src[1]):])] = v
@@ -623,7 +731,7 @@ class Analyzer:
         return [(s_, st) for s_ in f.succ[b]]
 
     def assign(self, f, st, place, rv):
-        dkey = place_key(place)  # writes through any deref are not tracked
+        dkey = place_key(place, f.locals)
         k = rv["k"]
         dty = {"s": place["ty"]}
         rng = ty_range(dty)
@@ -655,7 +763,10 @@ class Analyzer:
         if k == "cast":
             src = self.op_iv(f, st, rv["op"])
             if rng is None:
+                ln = self.len_of_operand(f, st, rv["op"])
                 st.kill(dkey)
+                if ln is not None:
+                    self.set_len(st, dkey, ln)
                 return
             if src is None:
                 self.set_key(st, dkey, rng)
@@ -700,6 +811,11 @@ class Analyzer:
                         self.agg_obs[key] = join(self.agg_obs[key], iv) if key in self.agg_obs and iv is not None else (iv if key not in self.agg_obs else None)
             st.kill(dkey)
             if dkey[0] in self._mut_borrowed:
+                if dkey[0] in self._len_safe and rv["agg"] == "adt" and rv["path"] not in (flow.OPTION, flow.RESULT, flow.CONTROL_FLOW):
+                    for fname, o in zip(rv["fields"], rv["ops"]):
+                        ln = self.len_of_operand(f, st, o)
+                        if ln is not None and ty_range(self._op_ty(f, o)) is None:
+                            st.v[(dkey[0], dkey[1] + (fname, "#len"))] = ln
                 return
             if rv["agg"] == "tuple":
                 for i, o in enumerate(rv["ops"]):
@@ -711,8 +827,21 @@ class Analyzer:
                 hi = self.op_iv(f, st, rv["ops"][1])
                 if lo is not None and hi is not None:
                     st.v[(dkey[0], dkey[1] + ("#item",))] = (lo[0], max(hi[1] - 1, lo[0]))
+                    st.v[(dkey[0], dkey[1] + ("start",))] = lo
+                    st.v[(dkey[0], dkey[1] + ("end",))] = hi
             elif rv["agg"] == "adt":
                 variant = rv["variant"]
+                if rv["path"] in (flow.RESULT, flow.OPTION):
+                    st.v[(dkey[0], dkey[1] + ("#ok",))] = (1, 1) if variant in ("Ok", "Some") else (0, 0)
+                    if rv["ops"]:
+                        sk = self.op_key(st, rv["ops"][0])
+                        if sk is not None:
+                            for kk, vv in list(st.v.items()):
+                                if kk[0] == sk[0] and kk[1][: len(sk[1])] == sk[1] and kk[1] != sk[1]:
+                                    st.v[(dkey[0], dkey[1] + ("@" + variant, rv["fields"][0]) + kk[1][len(sk[1]):])] = vv
+                        ln = self.len_of_operand(f, st, rv["ops"][0])
+                        if ln is not None:
+                            st.v[(dkey[0], dkey[1] + ("@" + variant, rv["fields"][0], "#len"))] = ln
                 enum_like = rv["path"] in (flow.OPTION, flow.RESULT) or len(rv["fields"]) != len(rv["ops"])
                 for i, (fname, o) in enumerate(zip(rv["fields"], rv["ops"])):
                     iv = self.op_iv(f, st, o)
@@ -722,13 +851,38 @@ class Analyzer:
                         st.v[(dkey[0], dkey[1] + ("@" + variant, fname))] = iv
                     else:
                         st.v[(dkey[0], dkey[1] + (fname,))] = iv
+                if rv["path"] not in (flow.OPTION, flow.RESULT, flow.CONTROL_FLOW):
+                    for fname, o in zip(rv["fields"], rv["ops"]):
+                        ln = self.len_of_operand(f, st, o)
+                        if ln is not None and ty_range(self._op_ty(f, o)) is None:
+                            st.v[(dkey[0], dkey[1] + (fname, "#len"))] = ln
             elif rv["agg"] == "array":
                 pass
             return
         if k == "discr":
             st.kill(dkey)
+            # discriminant of a Result/Option whose Ok-ness is known
+            p = rv["place"]
+            sk = place_key(p, f.locals)
+            adt = rv.get("adt")
+            if sk is not None and adt in (flow.RESULT, flow.OPTION):
+                okv = st.v.get((sk[0], sk[1] + ("#ok",)))
+                if okv is not None and okv[0] == okv[1]:
+                    is_ok = okv[0] == 1
+                    d = (0 if is_ok else 1) if adt == flow.RESULT else (1 if is_ok else 0)
+                    self.set_key(st, dkey, (d, d))
             return
-        if k == "repeat" or k == "ref" or k == "rawptr":
+        if k == "ref" or k == "rawptr":
+            skey = place_key(rv["place"], f.locals)
+            if skey is not None and skey != dkey:
+                self.copy_sub(st, dkey, skey, allow_len=True)
+            else:
+                st.kill(dkey)
+            ln = self.len_of_place(f, st, rv["place"])
+            if ln is not None:
+                self.set_len(st, dkey, ln)
+            return
+        if k == "repeat":
             st.kill(dkey)
             return
         st.kill(dkey)
@@ -947,36 +1101,88 @@ class Analyzer:
         ret = None
         c = core.callee_of(t)
         tps = self.F.call_targets(f, t) if c else []
-        handled = False
+        effects = None  # list of (owner local, new #len interval or None)
+        modelled = False
+        # owners of &mut arguments (their lengths may change in the callee)
+        mut_owners = []
+        for i, a in enumerate(t["args"]):
+            p = core.op_place(a)
+            if p is not None and p["ty"].startswith("&mut "):
+                mut_owners.append((i, flow.resolve_owner(f, a, want_mut=True)))
         if c is not None and tps:
-            # crate-local callee(s): join of summaries
+            # crate-local callee(s): join of summaries, arguments carry their tracked sub-facts
             rets = []
             for tp in tps:
                 g = self.F.fns[tp]
                 args = [argiv[i] if (i < len(argiv) and ty_range(g.locals[i + 1]["ty"]) is not None) else None for i in range(g.arg_count)]
-                rets.append(self.call_local(tp, args))
+                sub = {}
+                for i, a in enumerate(t["args"][: g.arg_count]):
+                    ak = self.op_key(st, a)
+                    if ak is not None:
+                        for kk, vv in st.v.items():
+                            if kk[0] == ak[0] and kk[1][: len(ak[1])] == ak[1] and kk[1] != ak[1]:
+                                sub[(i + 1, kk[1][len(ak[1]):])] = vv
+                    if ak is None or (i + 1, ("#len",)) not in sub:
+                        ln = self.len_of_operand(f, st, a)
+                        if ln is not None and ln != type_len(g.locals[i + 1]["ty"]["s"]):
+                            sub[(i + 1, ("#len",))] = ln
+                rets.append(self.call_local(tp, args, sub or None))
             ret = rets[0]
             for r in rets[1:]:
                 ret = {k: join(v, r[k]) for k, v in ret.items() if k in r}
-            handled = True
+            effects = []
+            for i, owner in mut_owners:
+                k = ("#param", i + 1, "#len")
+                effects.append((owner, ret.get(k)))
+                for kk, vv in ret.items():
+                    if len(kk) > 3 and kk[0] == "#param" and kk[1] == i + 1 and kk[-1] == "#len":
+                        effects.append(((owner, kk[2:-1]), vv))
         elif c is not None:
-            ret, goal = summaries.extern_call(self, f, st, t, c, argiv)
-            handled = ret is not None
+            ret, goal, effects = summaries.extern_call(self, f, st, t, c, argiv)
+            modelled = effects is not None
             if record and goal is not None:
                 proved, desc, detail = goal
                 self.sites.setdefault((f.path, b), []).append(Site(f.path, b, "call", desc, proved, detail, ctx))
+            if effects is None:
+                effects = [(owner, None) for i, owner in mut_owners]
+        else:
+            effects = [(owner, None) for i, owner in mut_owners]
         if t["target"] is None:
             return []
         s2 = st.clone()
+        # everything known about the referent of a `&mut` argument is stale after the call ...
+        for i, owner in mut_owners:
+            if owner is not None and not modelled:
+                for kk in [kk for kk in s2.v if kk[0] == owner]:
+                    del s2.v[kk]
+                for kk in [kk for kk in s2.cmp if kk[0] == owner]:
+                    del s2.cmp[kk]
+        # ... except what the callee's summary (or the extern model) re-establishes
+        for owner, newlen in effects or []:
+            if owner is None:
+                continue
+            if isinstance(owner, tuple):
+                if newlen is not None and (owner[0] not in self._mut_borrowed or owner[0] in self._len_safe):
+                    s2.v[(owner[0], owner[1] + ("#len",))] = newlen
+                continue
+            if newlen is None:
+                s2.v.pop((owner, ("#len",)), None)
+            else:
+                self.set_len(s2, (owner, ()), newlen)
         if dkey is not None:
             s2.kill(dkey)
-            if dkey[0] not in self._mut_borrowed:
-                if ret:
-                    for sub, iv in ret.items():
-                        if iv is not None:
-                            s2.v[(dkey[0], dkey[1] + sub)] = iv
-                if rng is not None and (dkey not in s2.v):
-                    s2.v[dkey] = rng
+            if ret:
+                cmpinfo = ret.get(("#cmp",))
+                if cmpinfo is not None and dkey[0] not in self._mut_borrowed:
+                    s2.cmp[dkey] = cmpinfo
+                for sub, iv in ret.items():
+                    if iv is None or (sub and sub[0] in ("#param", "#cmp")):
+                        continue
+                    if dkey[0] in self._mut_borrowed and not (sub and sub[-1] == "#len" and dkey[0] in self._len_safe):
+                        continue
+                    s2.v[(dkey[0], dkey[1] + sub)] = iv
+            if dkey[0] not in self._mut_borrowed and rng is not None and (dkey not in s2.v):
+                s2.v[dkey] = rng
         return [(t["target"], s2)]
 
 
